@@ -101,14 +101,14 @@ func idmExec(idm *memidm.MemIdm, o idmOp) string {
 			return idmErr(err)
 		}
 
-		return fmt.Sprintf("ok group %s gid=%d", g.Name(), g.Gid())
+		return fmt.Sprintf("ok group %q gid=%d", g.Name(), g.Gid())
 	case "AddUser":
 		u, err := idm.AddUser(o.Name, o.Grp)
 		if err != nil {
 			return idmErr(err)
 		}
 
-		return fmt.Sprintf("ok user %s uid=%d gid=%d admin=%v", u.Name(), u.Uid(), u.Gid(), u.IsAdmin())
+		return fmt.Sprintf("ok user %q uid=%d gid=%d admin=%v", u.Name(), u.Uid(), u.Gid(), u.IsAdmin())
 	case "DelGroup":
 		return idmErr(idm.DelGroup(o.Name))
 	case "DelUser":
@@ -119,28 +119,28 @@ func idmExec(idm *memidm.MemIdm, o idmOp) string {
 			return idmErr(err)
 		}
 
-		return fmt.Sprintf("ok group %s gid=%d", g.Name(), g.Gid())
+		return fmt.Sprintf("ok group %q gid=%d", g.Name(), g.Gid())
 	case "LookupUser":
 		u, err := idm.LookupUser(o.Name)
 		if err != nil {
 			return idmErr(err)
 		}
 
-		return fmt.Sprintf("ok user %s uid=%d gid=%d admin=%v", u.Name(), u.Uid(), u.Gid(), u.IsAdmin())
+		return fmt.Sprintf("ok user %q uid=%d gid=%d admin=%v", u.Name(), u.Uid(), u.Gid(), u.IsAdmin())
 	case "LookupGroupId":
 		g, err := idm.LookupGroupId(o.ID)
 		if err != nil {
 			return idmErr(err)
 		}
 
-		return fmt.Sprintf("ok group %s gid=%d", g.Name(), g.Gid())
+		return fmt.Sprintf("ok group %q gid=%d", g.Name(), g.Gid())
 	case "LookupUserId":
 		u, err := idm.LookupUserId(o.ID)
 		if err != nil {
 			return idmErr(err)
 		}
 
-		return fmt.Sprintf("ok user %s uid=%d gid=%d admin=%v", u.Name(), u.Uid(), u.Gid(), u.IsAdmin())
+		return fmt.Sprintf("ok user %q uid=%d gid=%d admin=%v", u.Name(), u.Uid(), u.Gid(), u.IsAdmin())
 	}
 
 	return "unknown-op"
@@ -222,9 +222,9 @@ func decodeIdmModel(s string) *idmModel {
 // step validates out as a result of o in state m and applies it. why explains a refusal.
 func (m *idmModel) step(o idmOp, out string) (ok bool, why string) {
 	out, _ = splitAdmin(out) // the IsAdmin flag is judged separately (adminAnomaly)
-	groupOut := func(name string, gid int) string { return fmt.Sprintf("ok group %s gid=%d", name, gid) }
+	groupOut := func(name string, gid int) string { return fmt.Sprintf("ok group %q gid=%d", name, gid) }
 	userOut := func(name string, u [2]int) string {
-		return fmt.Sprintf("ok user %s uid=%d gid=%d", name, u[0], u[1])
+		return fmt.Sprintf("ok user %q uid=%d gid=%d", name, u[0], u[1])
 	}
 
 	switch o.K {
@@ -238,7 +238,7 @@ func (m *idmModel) step(o idmOp, out string) (ok bool, why string) {
 			gid  int
 		)
 
-		if n, _ := fmt.Sscanf(out, "ok group %s gid=%d", &name, &gid); n != 2 || name != o.Name {
+		if n, _ := fmt.Sscanf(out, "ok group %q gid=%d", &name, &gid); n != 2 || name != o.Name {
 			return false, "want ok group " + o.Name
 		}
 
@@ -265,7 +265,7 @@ func (m *idmModel) step(o idmOp, out string) (ok bool, why string) {
 			uid, og int
 		)
 
-		if n, _ := fmt.Sscanf(out, "ok user %s uid=%d gid=%d", &name, &uid, &og); n != 3 || name != o.Name {
+		if n, _ := fmt.Sscanf(out, "ok user %q uid=%d gid=%d", &name, &uid, &og); n != 3 || name != o.Name {
 			return false, "want ok user " + o.Name
 		}
 
@@ -361,7 +361,7 @@ func adminAnomaly(out string) *sim.Violation {
 		uid, gid int
 	)
 
-	if n, _ := fmt.Sscanf(base, "ok user %s uid=%d gid=%d", &name, &uid, &gid); n != 3 {
+	if n, _ := fmt.Sscanf(base, "ok user %q uid=%d gid=%d", &name, &uid, &gid); n != 3 {
 		return nil
 	}
 
@@ -392,13 +392,13 @@ var (
 func idmSetOSType(ost avfs.OSType) {
 	if ost == avfs.OsWindows {
 		idmAdminUser, idmAdminGroup = "ContainerAdministrator", "Administrators"
-		idmNames = []string{idmAdminUser, idmAdminGroup, "g1", "g2", "u1", "u2", "x"}
+		idmNames = []string{idmAdminUser, idmAdminGroup, "g1", "g2", "u1", "u2", "x", ""}
 
 		return
 	}
 
 	idmAdminUser, idmAdminGroup = "root", "root"
-	idmNames = []string{"root", "g1", "g2", "u1", "u2", "x"}
+	idmNames = []string{"root", "g1", "g2", "u1", "u2", "x", ""}
 }
 
 func genIdmOp(t *sim.Tape, ids []int, noAdminGroup bool) idmOp {
